@@ -6,6 +6,9 @@
 #[path = "../../replay/src/v14.rs"]
 mod v14;
 
+pub mod corpus_c03;
+pub mod dec;
+pub mod c03_gen;
 #[cfg(kani)]
 mod c06;
 #[cfg(kani)]
